@@ -52,7 +52,7 @@ theorem stQa_regs (e : Elem) (s s2 : St) (h : stQa e s = .ok s2) :
     · simp [hq, St.setRegs, clsStep, hx]
     · simp only [hq, if_false, clsStep, hx]
 
-theorem stValue_grow {P : Prims} {V : St → List Val} (hR : Rec P V) (dd : DDesc) (e : Elem) (s s' : St)
+theorem stValue_grow {P : Prims} {V : St → List Val} {X : St → Prop} (hR : Rec P V X) (dd : DDesc) (e : Elem) (s s' : St)
     (h : stValue P dd e s = .ok s') : ∃ v, V s' = V s ++ [v] := by
   unfold stValue at h
   split at h
@@ -120,7 +120,7 @@ theorem plain_facts (e : Elem) (v : Val) (he : e.id ≠ 31031) :
   refine ⟨by simp [isBit, he], rfl, rfl, fun q => rfl⟩
 
 /-- `stQa` followed by `stValue` for a plain element that is not 031031 -/
-theorem Core.value_plain {P : Prims} {V : St → List Val} (hR : Rec P V) {s s2 s' : St} {cs : List Nat}
+theorem Core.value_plain {P : Prims} {V : St → List Val} {X : St → Prop} (hR : Rec P V X) {s s2 s' : St} {cs : List Nat}
     (hc : Core V s cs) (hst : Settled s) (e : Elem) (he : e.id ≠ 31031)
     (h2 : stQa e s = .ok s2) (h3 : stValue P (.plain e) e s2 = .ok s') :
     Core V s' cs ∧ s'.regs.bitmapDef = s.regs.bitmapDef ∧ s'.regs.backBoundary = s.regs.backBoundary ∧
@@ -149,7 +149,7 @@ theorem Core.value_plain {P : Prims} {V : St → List Val} (hR : Rec P V) {s s2 
   · exact phase_ordinary hc _ f1 f2 f3 hst e1 e2 e3
 
 /-- a whole element descriptor (not 031031) -/
-theorem Core.element {P : Prims} {V : St → List Val} (hR : Rec P V) {s s' : St} {cs : List Nat}
+theorem Core.element {P : Prims} {V : St → List Val} {X : St → Prop} (hR : Rec P V X) {s s' : St} {cs : List Nat}
     (hc : Core V s cs) (hst : Settled s) (e : Elem) (he : e.id ≠ 31031)
     (h : elementDescriptor P (.plain e) e s = .ok s') :
     Core V s' cs ∧ s'.regs.bitmapDef = s.regs.bitmapDef ∧ s'.regs.backBoundary = s.regs.backBoundary ∧
@@ -176,9 +176,9 @@ theorem Core.element {P : Prims} {V : St → List Val} (hR : Rec P V) {s s' : St
 
 /-! ### the prelude of a member outside a bit-map definition -/
 
-theorem Core.prelude {P : Prims} {V : St → List Val} (hR : Rec P V) {s s1 : St} {cs : List Nat}
+theorem Core.prelude {P : Prims} {V : St → List Val} {X : St → Prop} (hR : Rec P V X) {s s1 : St} {cs : List Nat}
     (hc : Core V s cs) (hni : s.regs.bitmapDef ≠ .indicator) (id : Nat) (hid : id ≠ 31031)
-    (h : bitmapDefinition P id s = .ok s1) :
+    (h : bitmapDefinition P id s = .ok s1) (hx : X s) :
     Core V s1 cs ∧ Settled s1 ∧ s1.descs = s.descs := by
   unfold bitmapDefinition at h
   cases hb : s.regs.bitmapDef with
@@ -198,7 +198,7 @@ theorem Core.prelude {P : Prims} {V : St → List Val} (hR : Rec P V) {s s1 : St
       | ok sb =>
         simp only [hbb] at h
         cases h
-        refine ⟨hc.build hR hb bitmap hv hbb, Or.inl rfl, ?_⟩
+        refine ⟨hc.build hR hb bitmap hv hbb hx, Or.inl rfl, ?_⟩
         rw [buildBitmapped_eq'] at hbb
         split at hbb
         · cases hbb
@@ -216,7 +216,7 @@ theorem marker_facts (op : Nat) (e : Elem) (v : Val) :
 
 /-- the element stage of a marker operator, after the link has been recorded: with `markersOk` on the result
     neither an associated field nor a second zero bit is taken -/
-theorem Core.marker_elem {P : Prims} {V : St → List Val} (hR : Rec P V) {s s' : St} {cs : List Nat}
+theorem Core.marker_elem {P : Prims} {V : St → List Val} {X : St → Prop} (hR : Rec P V X) {s s' : St} {cs : List Nat}
     (hc : Core V s cs) (hst : Settled s) (op : Nat) (e' : Elem) (owner : Nat) (be : Elem) (rest : List (Nat × Elem))
     (hb : s.regs.bmIter = some ((owner, be) :: rest))
     (h : elementDescriptor P (.marker op e') e' (addLink (s.setRegs fun r => { r with bmIter := some rest }) owner) = .ok s')
@@ -286,7 +286,7 @@ theorem Core.marker_elem {P : Prims} {V : St → List Val} (hR : Rec P V) {s s' 
           · exact phase_ordinary hc _ f1 f2 f3 hst e1 (by rw [sr, qr]; rfl) (by rw [sr, qr]; rfl)
 
 /-- `process_bitmapped_descriptor` -/
-theorem Core.bitmapped {P : Prims} {V : St → List Val} (hR : Rec P V) {s s' : St} {cs : List Nat}
+theorem Core.bitmapped {P : Prims} {V : St → List Val} {X : St → Prop} (hR : Rec P V X) {s s' : St} {cs : List Nat}
     (hc : Core V s cs) (hst : Settled s) (op : Nat) (h : bitmappedDescriptor P op s = .ok s')
     (hok : markersOk (items V s') = true) :
     Core V s' cs ∧ s'.regs.bitmapDef = s.regs.bitmapDef := by
